@@ -33,7 +33,7 @@ Definition run_view (v : gview) (ops : list gop) : list (gout (list Z)) :=
                (osu_len TS objs take) (fun cs => oc_list (fst cs)) ops (osu_new TS [] objs)
   | VTaiko flags =>
       run_gops (taiko_next TS trace_process flags) (fun n => taiko_nth TS trace_process flags n)
-               (taiko_len TS flags) (fun c => [c]) ops (taiko_new TS [])
+               (taiko_len TS flags) (fun cs => [fst cs]) ops (taiko_new TS [])
   | VCatch evs =>
       run_gops (catch_next TS trace_process evs) (catch_nth TS trace_process evs)
                (catch_len TS evs) (fun cs => cc_list (fst cs)) ops (catch_new TS [] evs)
